@@ -181,11 +181,20 @@ def run(ctx):
         for si, subset in enumerate(subsets):
             supplied = [init_fields[j] for j in subset]
             args = {}
+            typed_args = {}
             for f in supplied:
                 v = genval.member(f.ty, rng, small=True)
                 if rng.random() < 0.2:
                     v = genval.mutate(v, rng)
                 args[f.name] = v
+                # constructor only: an already-built instance of the field's own dataclass, possibly holding raw
+                # (unconverted / ill-typed) contents - the constructor must convert it like any other argument
+                if f.ty.k == 'dc' and rng.random() < 0.5:
+                    inner_cls = py_class(f.ty)
+                    raw = {g.name: rng.choice((1, 2.5, 'txt', None, [1], True)) for g in f.ty.x['spec'].fields if g.name != '_KW_ONLY_' and g.init}
+                    o = observe(inner_cls.make_unchecked, **raw)
+                    if o.kind == 'value':
+                        typed_args[f.name] = o.val
             exp, bad = expect_fields(args)
             if bad == 'escape':
                 continue
@@ -204,13 +213,29 @@ def run(ctx):
             if raise_expected and expect_ok:
                 ctx.count('post_init_raise_cases')
             instances = {}
+            if typed_args and not missing_required:
+                targs = {**args, **typed_args}
+                want = {n: observe(env.convert, v, build(next(f.ty for f in init_fields if f.name == n))) for n, v in typed_args.items()}
+                if bad is None and all(w.kind != 'escape' for w in want.values()):
+                    out = observe(cls, **targs)
+                    ctx.count('constructions')
+                    ctx.count('typed_instance_arguments')
+                    ok_expected = all(w.kind == 'value' for w in want.values()) and not raise_expected
+                    wit = {'class': S.brief(), 'path': 'ctor-kw(typed instance)', 'supplied': short(targs, 300), 'outcome': out.brief(),
+                           'convert(arg, field type)': {n: w.brief()[:120] for n, w in want.items()}}
+                    if ok_expected and (out.kind != 'value' or any(not deep_typed_eq(w.val, getattr(out.val, n, None))[0] for n, w in want.items())):
+                        ctx.violation('construction-is-conversion', 'main', i, wit, mech='typed-instance-argument-not-converted')
+                    elif not ok_expected and out.kind == 'value' and not raise_expected:
+                        ctx.violation('construction-is-conversion', 'main', i, wit, mech='typed-instance-argument-accepted-unconverted')
             paths = [('ctor-kw', lambda: cls(**args))]
             is_prefix = [f.name for f in pos_fields[:len(args)]] == [f.name for f in supplied] and all(f in pos_fields for f in supplied)
             if is_prefix:
                 paths.append(('ctor-pos', lambda: cls(*[args[f.name] for f in supplied])))
             if 'struct' in S.opt('in_format'):
                 keymap = {f.name: rng.choice(sorted(model.in_names(S, f)[0], key=repr)) for f in supplied}
-                paths.append(('data-mapping', lambda: cls.from_data({keymap[n]: v for n, v in args.items()})))
+                # with allow_extra, unknown keys ride along (they must not stand in for absent fields)
+                extras = {f"zz_unknown_{j}": j for j in range(rng.choice((0, 1, 3, 5)))} if S.opt('allow_extra') else {}
+                paths.append(('data-mapping', lambda: cls.from_data({**{keymap[n]: v for n, v in args.items()}, **extras})))
             if 'tuple' in S.opt('in_format') and is_prefix:
                 paths.append(('data-sequence', lambda: cls.from_data([args[f.name] for f in supplied])))
             for pname, call in paths:
